@@ -7,7 +7,7 @@ SW=$1; NAME=$2; V=/tmp/vfy-$NAME; LOG=/verif/wip/seeds/verify-$NAME.log
 exec >"$LOG" 2>&1
 git -C /repo worktree remove --force "$V" 2>/dev/null
 git -C /repo worktree add --detach "$V" HEAD || exit 2
-cp -r "$SW/_seed" "$V/_seed"; rm -f "$V"/_seed/*.log "$V"/_seed/*.out "$V/_seed/demo"
+mkdir -p "$V/_seed"; for f in "$SW"/_seed/*; do [ -f "$f" ] && case "$f" in *.log|*.out|*/demo|*.a|*.o|*.txt) ;; *) cp "$f" "$V/_seed/";; esac; done
 cd "$V"
 make -f Makefile.unx -j16 >/dev/null 2>&1 || { echo "ORIG BUILD FAILED"; exit 2; }
 make -f Makefile.unx -k -j16 check > _seed/vfy_check_orig.out 2>&1
